@@ -167,6 +167,14 @@ class Tacd:
         try:
             if kind == "connect_close":
                 self._connect().close()
+            elif kind == "connect_reset":
+                # the connection is aborted (RST) as soon as it is established: accept() still returns it, but the peer is gone
+                s = self._connect()
+                if self.listener == "tcp":
+                    import struct
+                    s.setsockopt(socket.SOL_SOCKET, socket.SO_LINGER, struct.pack("ii", 1, 0))
+                s.close()
+                time.sleep(0.05)
             elif kind == "garbage":
                 s = self._connect()
                 s.sendall(os.urandom(300))
